@@ -74,6 +74,107 @@ def py_of(node):
         raise AnalysisError('cannot read Cython expression %s' % text(node))
 
 
+def stale_loop_values(pyx):
+    """per loop of a .pyx module: variables that a statement at the top level of the loop body reads although, in this iteration,
+    they have only been assigned under a condition (or not yet) - the value of the previous iteration leaks in.  Accumulators (every
+    assignment in the loop is `v op= e` / `v = f(v ...)`) and the loop targets are carried on purpose and are not reported.
+    -> [(function name, line, variable, reading statement text)]"""
+    out = []
+
+    def names_read(n):
+        return [x.name for x in walk(n) if tname(x) == 'NameNode']
+
+    def assigns(n):
+        """[(name, is_update)] assigned anywhere inside n"""
+        res = []
+        for x in walk(n):
+            t = tname(x)
+            if t == 'SingleAssignmentNode' and tname(x.lhs) == 'NameNode':
+                res.append((x.lhs.name, x.lhs.name in names_read(x.rhs)))
+            elif t == 'InPlaceAssignmentNode' and tname(x.lhs) == 'NameNode':
+                res.append((x.lhs.name, True))
+            elif t == 'CascadedAssignmentNode':
+                for l in x.lhs_list:
+                    if tname(l) == 'NameNode':
+                        res.append((l.name, False))
+        return res
+
+    TERM = ('RaiseStatNode', 'ReraiseStatNode', 'ReturnStatNode', 'ContinueStatNode', 'BreakStatNode')
+
+    def stats_of(n):
+        if n is None:
+            return []
+        return n.stats if tname(n) == 'StatListNode' else [n]
+
+    def terminates(stats):
+        return bool(stats) and tname(stats[-1]) in TERM
+
+    def proc(stats, definite, fresh, fname_):
+        definite = set(definite)
+        for st in stats:
+            t = tname(st)
+
+            def check(reads):
+                for v in reads:
+                    if v in fresh and v not in definite:
+                        out.append((fname_, pyx.line(st), v, t))
+            if t == 'SingleAssignmentNode':
+                check(names_read(st.rhs))
+                if tname(st.lhs) == 'NameNode':
+                    definite.add(st.lhs.name)
+                else:
+                    check(names_read(st.lhs))
+            elif t == 'CascadedAssignmentNode':
+                check(names_read(st.rhs))
+                definite.update(l.name for l in st.lhs_list if tname(l) == 'NameNode')
+            elif t == 'IfStatNode':
+                arms = []
+                for cl in st.if_clauses:
+                    check(names_read(cl.condition))
+                    b_ = stats_of(cl.body)
+                    d_ = proc(b_, definite, fresh, fname_)
+                    if not terminates(b_):
+                        arms.append(d_)
+                e_ = stats_of(st.else_clause)
+                d_ = proc(e_, definite, fresh, fname_)
+                if not terminates(e_):
+                    arms.append(d_)
+                if arms:
+                    definite = set.intersection(*arms)
+            elif t == 'TryExceptStatNode':
+                b_ = stats_of(st.body) + stats_of(st.else_clause)
+                arms = []
+                d_ = proc(b_, definite, fresh, fname_)
+                if not terminates(b_):
+                    arms.append(d_)
+                for h in st.except_clauses:
+                    hb = stats_of(h.body)
+                    dh = proc(hb, definite, fresh, fname_)
+                    if not terminates(hb):
+                        arms.append(dh)
+                if arms:
+                    definite = set.intersection(*arms)
+            elif t == 'TryFinallyStatNode':
+                definite = proc(stats_of(st.body), definite, fresh, fname_)
+                definite = proc(stats_of(st.finally_clause), definite, fresh, fname_)
+            elif t in ('ForInStatNode', 'ForFromStatNode', 'WhileStatNode'):
+                pass            # inner loops are visited on their own
+            elif t == 'StatListNode':
+                definite = proc(st.stats, definite, fresh, fname_)
+            else:
+                check(names_read(st))
+        return definite
+
+    for fn in [n for n in pyx.nodes() if tname(n) in ('DefNode', 'CFuncDefNode')]:
+        fname_ = fn.name if tname(fn) == 'DefNode' else fname(fn)
+        for loop in [n for n in walk(fn) if tname(n) in ('ForInStatNode', 'ForFromStatNode', 'WhileStatNode')]:
+            inloop = assigns(loop.body)
+            fresh = set(v for v, upd in inloop if not upd) - set(v for v, upd in inloop if upd)
+            target = set(names_read(loop.target)) if getattr(loop, 'target', None) is not None else set()
+            proc(stats_of(loop.body), target, fresh, fname_)
+    return out
+
+
 def check(chk):
     chk.decides = ('every Des<Name> Cython deserializer reads the same fixed-width fields (width, signedness) as cqltypes.<Name>.deserialize, and no typed C local narrows what it '
                    'unpacked; the null / empty decision of the Cython from_binary + _ret_empty equals cqltypes._CassandraType.from_binary on all 12 (size class, empty_binary_ok, '
@@ -86,6 +187,7 @@ def check(chk):
     chk.rule('C07.narrow', 'a cdef-typed local assigned from unpack_num[T] / read_int can represent every T value')
     chk.rule('C07.null', 'from_binary (pxd) + _ret_empty == _CassandraType.from_binary over size {<0, 0, >0} x empty_binary_ok x support_empty_values')
     chk.rule('C07.coll', 'collection prefix type by version, inner version max(3, v), tuple null test, map key bytes')
+    chk.rule('C07.stale', 'in the loops of the compiled decoders a per-iteration value read at the top level of the loop body has been assigned unconditionally in that iteration')
     chk.rule('C07.dispatch', 'find_deserializer: Des + cqltype.__name__, then issubclass chain in subclass-first order; class pairs mirror inheritance')
     chk.rule('C07.rows', 'row_parser.recv_results_rows vs ResultMessage.recv_results_rows: metadata source, names md[2], types md[3], ColDesc(md[0], md[1], md[2]); FastResultMessage overrides only recv_results_rows')
     chk.rule('C07.murmur', 'cmurmur3.c vs murmur3.py: c1/c2, rotation amounts, mix constants, fmix constants, tail (case -> byte, shift) table, signed tail bytes, final mixing')
@@ -325,6 +427,20 @@ def check(chk):
     chk.judge(ok, 'C07.coll', (DES, 'DesTupleType.deserialize', des.line(tf)), 'tuple fields decoded with max(3, protocol_version) on both sides', 'inner version differs')
     more = [text(cl.condition) for n in walk(tf) if tname(n) == 'IfStatNode' for cl in n.if_clauses if 'buf.size' in text(cl.condition)]
     chk.judge(more == ['p < buf.size'] and 'if p == len(byts)' in src(pt), 'C07.coll', (DES, 'DesTupleType.deserialize', des.line(tf)), 'missing trailing fields become None on both sides', 'short tuple handling differs')
+    # per-iteration values of every loop in the compiled decoders
+    nloops = 0
+    for rel_ in (DES, OBJ, ROW):
+        pm_x = des if rel_ == DES else PyxModule(repo, rel_)
+        nloops += len([n for n in pm_x.nodes() if tname(n) in ('ForInStatNode', 'ForFromStatNode', 'WhileStatNode')])
+        st_ = stale_loop_values(pm_x)
+        for fn_, ln_, v_, _t in st_:
+            chk.viol('C07.stale', (rel_, fn_, ln_), '%s: `%s` is read in the loop body' % (fn_, v_),
+                     'in this iteration `%s` is assigned only under a condition: when the condition is false (null / missing field) the value decoded in the '
+                     'previous iteration is used again, where the pure decoder yields None' % v_)
+        if not st_:
+            chk.ok('C07.stale', (rel_, '<module>', 0), 'loops of %s: no per-iteration value leaks from the previous iteration' % rel_)
+    if nloops < 8:
+        raise AnalysisError('C07.stale: only %d loops found in the compiled decoders' % nloops)
     # composite
     cf = own_deser('DesCompositeType')
     pc_, _ = C.find_method(cq.cls('CompositeType'), 'deserialize_safe')
